@@ -773,20 +773,27 @@ def propagateCmd (rest : String) : String :=
     s!"{fixV} {fixD} " ++ " ".intercalate anns
   | _ => "bad-op"
 
-/-- `sigassign <kind> <stmt>*` with `A:<s>-<e>:<key>:<0|1>` and `C:<s>-<e>:<key,key,...>` -/
+/-- `sigassign <kind> <stmt>*` with `A:<s>-<e>:<key>:<0|1>` and `C:<s>-<e>:<key,key,...|->:<target key|->`; a key is
+    `<id>~<name>~<acc;acc;…|->` with `acc` = `P<port>` or `I<value|->` -/
 def sigassignCmd (args : List String) : String :=
   match args with
   | kind :: toks =>
     let k : SignalAssign.Kind := if kind == "tmpl" then .template else if kind == "fn" then .function else .custom
     let locOf' (t : String) : Nat × Nat := match t.splitOn "-" with | [a, b] => (a.toNat?.getD 0, b.toNat?.getD 0) | _ => (0, 0)
+    let accOf (t : String) : SignalAssign.Acc :=
+      if t.startsWith "P" then .port (t.drop 1).toString
+      else let v := (t.drop 1).toString; .idx (if v == "-" then none else some v)
+    let keyOf (t : String) : SignalAssign.Key := match t.splitOn "~" with
+      | [i, n, a] => { id := i, name := n, acc := if a == "-" then [] else (a.splitOn ";").map accOf }
+      | _ => { id := t, name := t, acc := [] }
     let ss : List SignalAssign.Stmt := toks.map (fun t => match t.splitOn ":" with
-      | ["A", l, key, q] => .assign (locOf' l) key (q == "1")
-      | ["C", l, keys] => .constraint (locOf' l) (csv keys ",")
+      | ["A", l, key, q] => .assign (locOf' l) (keyOf key) (q == "1")
+      | ["C", l, keys, tgt] => .constraint (locOf' l) (if keys == "-" then [] else (csv keys ",").map keyOf) (if tgt == "-" then none else some (keyOf tgt))
       | _ => .other)
     let rs := SignalAssign.findSignalAssignments k ss
     if rs.isEmpty then "-" else " ".intercalate (rs.map (fun r => match r with
-      | .signalAssignment l key secs => s!"CS0005:{l.1}-{l.2}:{key}:{",".intercalate (secs.map (fun x => s!"{x.1}-{x.2}"))}"
-      | .unnecessary l key => s!"CS0013:{l.1}-{l.2}:{key}:"))
+      | .signalAssignment l key secs => s!"CS0005:{l.1}-{l.2}:{key.id}:{",".intercalate (secs.map (fun x => s!"{x.1}-{x.2}"))}"
+      | .unnecessary l key => s!"CS0013:{l.1}-{l.2}:{key.id}:"))
   | _ => "bad-op"
 
 /-- `includes <inputs csv|-> <libs|-> <files>`:
